@@ -18,6 +18,7 @@ import zlib
 import numpy as np
 
 import mygrad as mg
+from mygrad.errors import InvalidBackprop
 from mygrad import Tensor
 from runtime.common import Bounded, close, robust_central
 from runtime.programs import P, leaves, numeric_grads, run_numpy, select
@@ -245,9 +246,15 @@ def check_c04_histories(tier, seed):
     root_layout = {"v": "C"}
 
     def run_hist(hist, use_mg):
-        root = base_vals.copy() if root_layout["v"] == "C" else np.asfortranarray(base_vals)
-        # the owner is a non-leaf tensor produced by an op that keeps its operand's memory layout (K-order)
-        fam = [mg.tensor(root, copy=False) * 1.0 if use_mg else root * 1.0]
+        root = base_vals.copy() if root_layout["v"][0] == "C" else np.asfortranarray(base_vals)
+        # the owner is a non-leaf tensor produced by an op that keeps its operand's memory layout (K-order) -- or, in the "+grad" variants,
+        # a leaf that still holds the gradient of an earlier backward pass when the history starts (a training loop that updates slices)
+        if root_layout["v"].endswith("+grad"):
+            fam = [mg.tensor(root.copy()) if use_mg else root.copy()]
+            if use_mg:
+                (fam[0] * fam[0]).sum().backward()
+        else:
+            fam = [mg.tensor(root, copy=False) * 1.0 if use_mg else root * 1.0]
         cval = 1.5
         for (kind, i, j) in hist:
             if i >= len(fam):
@@ -267,7 +274,7 @@ def check_c04_histories(tier, seed):
         return fam
 
     count = 0
-    for layout in ("C", "F"):
+    for layout in ("C", "F", "C+grad"):
         root_layout["v"] = layout
         for L in range(1, depth + 1):
             for hist in itertools.product(steps, repeat=L):
@@ -802,6 +809,39 @@ def check_c07(tier, seed):
             if x.grad is not None or v.grad is not None:
                 b.fail("C07.bounded.stale", desc, "null_grad left a gradient on the leaf / its view")
         b.case(desc)
+    # an in-place update of a VIEW of a leaf that still holds a gradient (w[:2] -= lr * w.grad[:2] after backward): the statement works as
+    # on NumPy arrays, and the gradient of the leaf -- whose memory changed -- and of its views is gone
+    upd = [("v[...]=c", lambda v: v.__setitem__(Ellipsis, 0.5)), ("v*=c", lambda v: v.__imul__(2.0)), ("v-=lr*g", lambda v: v.__isub__(0.1 * np.ones(v.shape))), ("out=v", lambda v: mg.multiply(v, 3.0, out=v)), ("v[0]=c", lambda v: v.__setitem__(0, 7.0))]
+    viewsel = [("[:2]", lambda t: t[:2]), ("[::-1]", lambda t: t[::-1]), ("[1:][:1]", lambda t: t[1:][:1]), ("reshape", lambda t: t.reshape(2, 2))]
+    for vn, vf in viewsel:
+        for un, uf in upd:
+            w = mg.tensor(rng.uniform(1, 2, size=(4,)))
+            ref = w.data.copy()
+            (w * w).sum().backward()
+            desc = dict(view=vn, update=un, leaf="holds the gradient of an earlier backward")
+            b.count("in-place update of a view of a gradient-holding leaf")
+            try:
+                v = vf(w)
+                uf(v)
+                rv = vf(ref)
+                if un == "v[...]=c":
+                    rv[...] = 0.5
+                elif un == "v*=c":
+                    rv *= 2.0
+                elif un == "v-=lr*g":
+                    rv -= 0.1 * np.ones(rv.shape)
+                elif un == "out=v":
+                    np.multiply(rv, 3.0, out=rv)
+                else:
+                    rv[0] = 7.0
+            except Exception as e:
+                b.fail("C07.bounded.inplace_on_view_of_grad_holder_raises", desc, f"{type(e).__name__}: {e}")
+                continue
+            if not np.array_equal(w.data, ref):
+                b.fail("C07.bounded.inplace_on_view_of_grad_holder_value", desc, f"leaf = {w.data.tolist()}, NumPy twin = {ref.tolist()}")
+            elif w.grad is not None or v.grad is not None:
+                b.fail("C07.bounded.stale", desc, "the leaf or its view still reports the old gradient after the in-place update")
+            b.case(desc)
     # a nulled gradient stays gone -- for the tensor, the views it had and the views taken afterwards -- until the next backward,
     # whichever member was nulled and whatever (non-backward) statements follow
     vops = [("[::-1]", lambda t: t[::-1]), ("reshape", lambda t: t.reshape(-1, 1)), ("[...]", lambda t: t[...]), ("T", lambda t: t.T)]
@@ -1031,6 +1071,51 @@ def check_c14(tier, seed):
                 except Exception as e:
                     b.fail("C14.bounded.bad_seed_wrong_error", d3, f"{type(e).__name__}: {e}")
                 b.case(d3)
+    # the terminal tensor in every graph position: leaf, intermediate, view of a leaf, view that already went through a backward pass
+    # (its graph is cleared, its base link lingers), view whose base holds a gradient: L.backward([g]) leaves L.grad = the seed
+    def terminals():
+        x = mg.tensor(rng.uniform(1, 2, size=(4,)))
+        yield "leaf", x
+        x = mg.tensor(rng.uniform(1, 2, size=(4,)))
+        yield "intermediate", x * 2.0
+        x = mg.tensor(rng.uniform(1, 2, size=(4,)))
+        yield "view-of-leaf", x[:3]
+        x = mg.tensor(rng.uniform(1, 2, size=(4,)))
+        v = x[:3]
+        (v * 2.0).sum().backward()
+        yield "view-after-its-own-backward", v
+        x = mg.tensor(rng.uniform(1, 2, size=(4,)))
+        (x * x).sum().backward()
+        yield "fresh-view-of-leaf-holding-a-gradient", x[1:]
+        x = mg.tensor(rng.uniform(1, 2, size=(4,)))
+        v = x[:3]
+        w = v[::-1]
+        (w * 2.0).sum().backward()
+        yield "view-of-view-after-backward", w
+        x = mg.tensor(rng.uniform(1, 2, size=(2, 2)))
+        v = x.T
+        (x * 3.0).sum().backward()
+        yield "dangling-view-after-base-backward", v
+
+    for seedk in ("none", "scalar", "array"):
+        for nm, t in terminals():
+            g = None if seedk == "none" else (2.5 if seedk == "scalar" else rng.uniform(1, 2, size=t.shape))
+            d4 = dict(terminal=nm, seed=seedk)
+            b.count("terminal.grad == seed")
+            try:
+                t.backward() if g is None else t.backward(g)
+            except InvalidBackprop:
+                # a dangling view whose base's consumers were cleared by another backward pass: the loud failure C09 requires
+                b.case(d4, nontrivial=False)
+                continue
+            except Exception as e:
+                b.fail("C14.bounded.terminal_raises", d4, f"{type(e).__name__}: {e}")
+                continue
+            exp = np.ones(t.shape) if g is None else np.broadcast_to(np.asarray(g, dtype=float), t.shape)
+            got = t.grad
+            if got is None or got.shape != t.shape or got.dtype != t.dtype or not np.array_equal(got, exp):
+                b.fail("C14.bounded.terminal_grad_is_seed", d4, f"terminal.grad = {None if got is None else np.asarray(got).tolist()}, expected {exp.tolist()}")
+            b.case(d4)
     # nnet layer outputs: I1
     import mygrad.nnet as nn
     from mygrad.nnet.layers import gru
